@@ -770,7 +770,10 @@ pub fn generate(sink: &mut Sink, seed: u64, thorough: bool) {
         let maxp = sc.clouds.iter().map(|c| c.points.len()).max().unwrap_or(0) + 5;
         let replay = format!("{} ## file={}", enc_lines[k], hex(&file));
         match guarded(|| read_scene(&file, maxp)) {
-            Err(p) => sink.fail("C08", "reader/panic-on-legal-file", &replay, &format!("reading a legal file panicked: {p}")),
+            Err(p) => {
+                sink.fail("C08", "reader/panic-on-legal-file", &replay, &format!("reading a legal file panicked: {p}"));
+                sink.fail("C03", "layout/panic-on-legal-file", &replay, &format!("reading a legal file panicked: {p}"));
+            }
             Ok(Err(e)) => {
                 let class = if e.contains("open") { "layout/open-failed" } else { "layout/blob-failed" };
                 sink.fail("C03", class, &replay, &format!("a legal file is rejected: {e}"));
